@@ -775,7 +775,7 @@ func cmapExtremes(c *hx.Ctx, seed uint64, n int) {
 }
 
 func Run(c *hx.Ctx) {
-	c.Rep.Rule = "valid documents of all seven formats from the harness writers (PDF in random physical layouts, DOCX, ODT, XLSX, PPTX, EPUB, HTML) x every single fault of the catalogue at every site (numbers -> 0,-1,2^31,2^63-1; references -> self/root/missing; delimiters removed/added; objects/members dropped/duplicated; stream data flipped/truncated; objects and stream data replaced by 20 thousand / 6 million nested opening delimiters (balanced and not); /N, /First and every header pair of every object stream at the edges of their types and out of order; every stream re-announced under every filter name/abbreviation/chain with edge decode parameters (full sweep on the first documents); /Length, xref entries, /W, /Prev, /Size, trailer; truncation at token boundaries; targeted field rewrites) + sampled double faults + byte mutation + hostile token soup into the raw parsers; every case runs 5-6 public entry points under a 10 s deadline and a 3 GiB heap limit; every case is non-trivial"
+	c.Rep.Rule = "valid documents of all seven formats from the harness writers (PDF in random physical layouts, DOCX, ODT, XLSX, PPTX, EPUB, HTML) x every single fault of the catalogue at every site (numbers -> 0,-1,2^31,2^63-1; references -> self/root/missing; delimiters removed/added; objects/members dropped/duplicated; stream data flipped/truncated; objects and stream data replaced by 20 thousand / 6 million nested opening delimiters (balanced and not); /N, /First and every header pair of every object stream at the edges of their types and out of order; every stream re-announced under every filter name/abbreviation/chain with edge decode parameters (full sweep on the first documents); /Length, xref entries, /W, /Prev, /Size, trailer; truncation at token boundaries; targeted field rewrites) ; structurally rich DOCX/ODT/PPTX (merged cells, nested lists, column grids) with every numeric attribute and element text -> 0,-1,2^31-1,2^31,2^32,999999999,2^63-1,-2^63 + sampled double faults + byte mutation + hostile token soup into the raw parsers; every case runs 5-6 public entry points under a 10 s deadline and a 3 GiB heap limit; every case is non-trivial"
 	xrefStreamOps(c)
 	gridOps(c)
 	ptreeOps(c)
@@ -811,6 +811,9 @@ func Run(c *hx.Ctx) {
 	xlsxFaults(c, c.Seed, c.N(250, 5000))
 	for _, f := range ZipFormats {
 		zipFaults(c, f, c.Seed, c.N(140, 2500))
+	}
+	for _, f := range []string{"DOCX", "ODT", "PPTX"} {
+		richNumberFaults(c, f, c.Seed, c.N(4, 16), c.N(1500, 80000))
 	}
 	htmlFaults(c, c.Seed, c.N(120, 1500))
 	rawParsers(c, c.Seed, c.N(1500, 60000))
